@@ -20,7 +20,7 @@ def _sig_operand(typ, ops):
 def check_effects(case):
     nl, spec = case['nl'], case['spec']
     c = build.build(nl, case['route'])
-    res = simp.apply_spec(spec, c)
+    res = simp.apply_spec(spec, c, reuse=bool(case.get('reuse_instance')))
     atoms = simp.atoms_of(spec)
     # pipelines equal sequencing of the constituent passes
     seq = c
@@ -31,6 +31,8 @@ def check_effects(case):
                         f'pipeline {spec} gives {build.bench_text(refsem.from_circuit(res))!r} but applying '
                         f'{atoms} one after another gives {build.bench_text(refsem.from_circuit(seq))!r}')
     cls = simp.spec_classes(spec)
+    if case.get('reuse_instance'):
+        cls.add('pass_object_reused')
     typ = {g[0]: g[1] for g in nl['gates']}
     changed = False
     if len(atoms) == 1 and spec[0] != 'cleanup':
